@@ -86,6 +86,16 @@ Second round:
   -- masking key and masked payload -- are themselves well-formed frames (key = the unmasked ping 89 02 6d 6b,
   then [final empty continuation if a message is open] [text "evil"] [close]), label
   `oversized_frame_embeds_valid_frames`; a third of too_big_single cases keep the plain filler.
+Fourth round:
+  M14 _receive_frame: the 64-bit extended length is masked with 0x7FFF...F, so a frame whose length has the most
+      significant bit set (RFC 6455 5.2: MUST be 0) is read as a short frame and delivered
+                                                                      -> C15.delivered_after_violation / C15.not_aborted, seeds 1-3
+      New violation kind len64_msb (hand-packed header; low 63 bits in {0,1,3,125,126,65536,2**62}, text/binary/
+      continuation, final/non-final; that many payload bytes follow when <=125) in `main` and exhaustively in the new
+      deterministic part `length_grid` (both roles x inside/outside a fragmented message); the non-minimal length
+      forms of short data frames (16-bit form for <126, 64-bit form for <65536), which the clean tree accepts, are the new
+      EITHER kind either_nonminimal_len.  Valid prefixes now also carry 125-byte pings (largest legal control payload)
+      between fragments, which the off-by-one `payloadlen >= 125` mutant turns into an abort.
 Third round:
   M13 _PerMessageDeflateDecompressor.decompress: `result += decompressor.flush()` for the one-shot (no context
       takeover) inflater before the unconsumed_tail test -- the inflate limit never fires in that mode
@@ -187,6 +197,12 @@ violation_s = st.one_of(
     # EITHER classes
     st.tuples(st.just("either_rsv1_control"), st.sampled_from([wsref.OP_PING, wsref.OP_PONG]), st.sampled_from([b"", b"\x00", b"\xff\xff\xff"])),
     st.tuples(st.just("either_mask_rule"), st.text(text_chars, max_size=8)),
+    # non-minimal length encodings of a data frame (RFC 6455 5.2 "minimal number of bytes MUST be used"; Tornado accepts them)
+    st.tuples(st.just("either_nonminimal_len"), st.text(text_chars, max_size=8), st.sampled_from([16, 64])),
+    # 64-bit length form with the most significant bit set (5.2: MUST be 0): announces >= 2**63 bytes.  2nd field = the
+    # low 63 bits (that many payload bytes follow when <= 125, so a receiver that masks the bit off would deliver them)
+    st.tuples(st.just("len64_msb"), st.sampled_from([0, 1, 3, 125, 126, 65536, 2 ** 62]), st.booleans(), st.booleans()),
+    st.tuples(st.just("len64_msb"), st.sampled_from([0, 1, 3, 125, 126, 65536, 2 ** 62]), st.booleans(), st.booleans()),
 )
 NEEDS_DEFLATE = {"too_big_inflated", "corrupt_deflate", "either_rsv1_control"}
 NEEDS_NO_DEFLATE = {"rsv1_no_deflate"}
@@ -235,8 +251,9 @@ def encode_valid(enc, m, limit, allow_ping_gap=True):
     npings = []
     if m["ping_gap"] and allow_ping_gap and not compress and m["cuts"]:
         # control frames between the fragments of an *uncompressed* message (the compressed variant is C14's open finding)
-        gaps = {0: [enc.frame(wsref.OP_PING, b"gap")]}
-        npings = [b"gap"]
+        gp = b"g" * 125 if len(m["cuts"]) >= 2 else b"gap"     # 125 = the largest legal control payload
+        gaps = {0: [enc.frame(wsref.OP_PING, gp)]}
+        npings = [gp]
     snap = enc.deflater.snapshot() if compress else None
     wire, info = enc.message(wsref.OP_BINARY if m["binary"] else wsref.OP_TEXT, data, cuts=m["cuts"], compress=compress, gap_frames=gaps)
     if limit is not None and compress and info["wire_len"] > limit:
@@ -442,6 +459,20 @@ def build_violation(enc, v, limit, deflate, inside, head=b"head!"):
             wsref.Inflater().decompress_message(pl)
         except wsref.RefError:
             info["kind_sig"] = "corrupt_deflate"  # Tornado inflates the control payload: same root cause if that raises
+    elif kind == "either_nonminimal_len":
+        _, text, form = v
+        data = f(wsref.OP_TEXT, text.encode("utf-8"), len_form=form)
+        info["either"] = True
+        info["either_value"] = text
+    elif kind == "len64_msb":
+        _, low, binary, fin = v
+        op = wsref.OP_CONT if inside else (wsref.OP_BINARY if binary else wsref.OP_TEXT)
+        body = b"a" * low if low <= 125 else b""
+        key = enc.masks.next() if enc.masks else None
+        data = struct.pack("!BBQ", (0x80 if fin else 0) | op, (0x80 if key else 0) | 127, (1 << 63) | low)
+        data += (key + wsref.apply_mask(key, body)) if key else body
+        info["size"] = True          # it is an (absurdly) oversized frame: 1009 if a close frame is sent at all
+        labels.add("len64_msb_low_%s" % ("small" if low <= 125 else "large"))
     elif kind == "either_mask_rule":
         _, text = v
         pl = text.encode("utf-8")
@@ -466,7 +497,7 @@ def normalise(case):
         c["limit"] = 300
     if kind == "too_big_inflated" and c["limit"] < 16:
         c["limit"] = 16
-    if kind == "either_mask_rule":
+    if kind in ("either_mask_rule", "either_nonminimal_len"):
         c["inside"] = False
     if c["inside"] and c["limit"] is not None and c["limit"] < 16:
         c["inside"] = False  # the 5-byte head fragment must itself be within the limit
@@ -872,12 +903,32 @@ def size_grid():
                                "same_segment": extra == 1, "segs": [], "masks": [b"\x10\x20\x30\x40"]}
 
 
-PARTS = {"main": run_case, "refcheck": reference_verdict_case, "frames": run_frames_case, "grid": run_frames_case, "size_grid": run_case}
+def length_grid():
+    """Deterministic: 64-bit length form with the top bit set, both roles x text/binary x final/non-final x outside /
+    inside a fragmented message x low 63 bits in {0,1,3,125,126,65536,2**62}, between two valid messages; plus the
+    non-minimal (EITHER) encodings of short text frames."""
+    small = {"binary": False, "text": "ok", "rep": 1, "cuts": [], "compress": False, "ping_gap": False, "exact_limit": False}
+    base = {"callback_mode": True, "deflate": False, "nct": (False, False), "limit": None, "before": [small], "head": b"head!", "head_conts": 0,
+            "after": [small], "same_segment": True, "segs": [], "masks": [b"\x01\x02\x03\x04"]}
+    for role in ("server", "client"):
+        for inside in (False, True):
+            for low in (0, 1, 3, 125, 126, 65536, 2 ** 62):
+                for binary in (False, True):
+                    for fin in (True, False):
+                        yield dict(base, role=role, inside=inside, violation=("len64_msb", low, binary, fin))
+        for form in (16, 64):
+            for text in ("", "abc", "x" * 125):
+                yield dict(base, role=role, inside=False, violation=("either_nonminimal_len", text, form))
+
+
+PARTS = {"main": run_case, "refcheck": reference_verdict_case, "frames": run_frames_case, "grid": run_frames_case, "size_grid": run_case,
+         "length_grid": run_case}
 
 
 def main(ctx):
     ctx.run_replays(PARTS)
     ctx.enumerate(size_grid(), run_case, name="size_grid")
+    ctx.enumerate(length_grid(), run_case, name="length_grid")
     ctx.explore(case_s, reference_verdict_case, ctx.n(300, 4000), name="refcheck")
     ctx.explore(case_s, run_case, ctx.n(2000, 40000), name="main")
     ctx.explore(frames_case_s, run_frames_case, ctx.n(1000, 30000), name="frames")
